@@ -198,6 +198,10 @@ PROPS = {
         "level": "proof",
         "level_prefix": "Partial proof -- contracts discharged without bound on the mechanisms named below, not the whole statement (bounded stand-ins and what is left out are listed): ",
         "units": ["nameorder", "nsec3order"],
+        "vx_search": {"bin": "c04_search_small_values", "crate": "replay", "release": True,
+                      "what": "about 15000 pairs/triples of small names (57 names of up to two labels over a,A,b,[,NUL,ab,aB) and of small "
+                              "Nsec, Nsec3, Nsec3param, Rrsig, Dnskey, Ds, Zonemd, Svcb, Mx, Srv and unknown record data values, checked "
+                              "on the real crate for the laws of the property -- run only to find a concrete pair for a failed Verus obligation"},
         "kani": [
             {"group": "g0", "name": "c04_label_order_eq_hash_len8_bounded", "kind": "bounded", "tier": "quick", "timeout": 300,
              "bound": "two labels of at most 8 octets, all contents",
